@@ -20,6 +20,8 @@ ObsOK(e) ==
     /\ {e.live[i] : i \in DOMAIN e.live} = Live(ptr')      \* alive iff referenced
     /\ Len(e.live) = Cardinality(Live(ptr'))
     /\ e.lerr = 0
+    \* every destruction goes through the handle's Deleter: with the logging deleter (deleter = 1) as many deleter calls as destructor runs, with the default one none
+    /\ e.dcalls = (IF e.deleter = 1 THEN e.dtors ELSE 0)
 
 Step(e) ==
     CASE e.e = "reset"          -> ptr' = [h \in Handles |-> Null]
@@ -31,6 +33,7 @@ Step(e) ==
       [] e.e = "copy_construct" -> CopyConstruct(e.a, e.b)
       [] e.e = "move_construct" -> MoveConstruct(e.a, e.b)
       [] e.e = "swap"           -> Swap(e.a, e.b)
+      [] e.e = "assign_object"  -> AssignObject(e.a, e.b)
       [] OTHER                  -> FALSE
 
 TInit == Init /\ l = 1
